@@ -59,7 +59,10 @@ type Trans struct {
 	pubFields   map[*types.Var]string      // fields of publish-once structs (crossbar.Client) -> label
 	pubTypes    map[*types.TypeName]bool
 	pubInfos    map[*FuncInfo]*pubInfo
-	freshMemo   map[*types.Func]int           // 0 unknown, 1 in progress, 2 yes, 3 no
+	freshMemo   map[*types.Func]int // 0 unknown, 1 in progress, 2 yes, 3 no
+	bufInfos    map[*FuncInfo]*bufInfo
+	freshRes    map[string]string
+	freshBusy   map[string]bool
 	cbUnderLock []*FuncInfo                   // functions that invoke a callback parameter and take locks
 	pathFlds    map[*types.Var]token.Position // fields that occur inside a source-level lock/field prefix
 	assigned    map[*types.Var]token.Position // fields assigned through a selector somewhere
